@@ -86,7 +86,7 @@ func refRender(tpl, id string) (string, bool) {
 // ---- enumeration -------------------------------------------------------------------
 
 func identifiers(maxLen int) []string {
-	alpha := []string{"a", "b", "B", "C", "_", "1"}
+	alpha := []string{"a", "z", "A", "Z", "_", "1"}
 	out := []string{""}
 	level := []string{""}
 	for l := 1; l <= maxLen; l++ {
